@@ -44,7 +44,7 @@ RowConsts(rs, as, r) == IF rs[r + 1].kind \in {"arith", "arithext", "mulext"} TH
 
 TraceInit == Init /\ l = 2
 TrReset == Ev("reset") /\ rows' = <<>> /\ slots' = <<>> /\ used' = {} /\ nvirt' = 0 /\ c2t' = <<>> /\ cache' = <<>> /\ ecache' = <<>>
-          /\ tval' = <<>> /\ last' = [ev |-> "init"] /\ built' = [done |-> FALSE]
+          /\ tval' = <<>> /\ last' = [ev |-> "init"] /\ built' = [done |-> FALSE] /\ copies' = {}
 TrVirt == Ev("virt") /\ Virt(L!Zero8) /\ Obs
 TrConst == Ev("const") /\ Const(Rec[l].c) /\ Obs
 NoBase == "nobase" \in DOMAIN Rec[1] /\ Rec[1].nobase
